@@ -133,6 +133,7 @@ pub fn check_state(s: &GenState, spec: &SettingsSpec, ctx: &mut Ctx) {
     let ex = Expect {
         prog: &prog,
         settings: spec,
+        subst: None,
     };
     let args0 = &s.insts[0];
     // fields: source fields minus PhantomData, then the marker
